@@ -149,7 +149,7 @@ impl Check for C03 {
     fn max_deaths_per_unit(&self, _cfg: &Cfg) -> u32 {
         // a well-typed generated program must never kill the process: a few
         // deaths are enough evidence, re-running the unit after each is wasted
-        20
+        6
     }
     fn case_timeout_s(&self, cfg: &Cfg) -> f64 {
         cfg.tier.pick(60.0, 300.0)
